@@ -23,14 +23,15 @@ RULE = ('Hypothesis call sequences (2-30 calls of parse(src) / eval(src, names_i
         'generated typed programs (every operator, literal form, slice, conditional, lambda and builtin) with '
         'repeats, near-duplicates differing only in surrounding whitespace (space, tab, \\n, \\r\\n and the characters str.strip '
         'removes but the lexer rejects: \\r, \\x0c, NBSP), failing sources (syntax, lexical, runtime, ops-limit, reserved word) '
-        'that later succeed under other names or budgets, names that shadow builtins; after every call the host mutates every '
+        'that later succeed under other names or budgets, names that shadow builtins; the host changes module-level settings of '
+        'the library (CAST_DICT_KEYS_TO_STRINGS, MAX_ARRAY_SIZE, REGEX_TIMEOUT) between calls; after every call the host mutates every '
         'mutable result in all worlds. Worlds: no cache, dict, LRU(2), always-evicting, pre-warmed dict. Oracle per call: equal '
         'result / exception class and message / names / parsed tree across all worlds; a deep snapshot (all attributes) of '
         'every cached tree is unchanged by every eval. Non-trivial: some source is used >= 2 times with different names, or '
         'after a near-duplicate or failing variant; distinct by sequence.')
 ASSUMPTIONS = ['the cache mappings are well-behaved MutableMappings (what they report as contained they return)']
 
-BASE = ['fz9(1)', 'fz9(x) if x != "str" else 0', 'x + 1', 'len(y)', 'y.push(1)\ny', 'z = x\nz', 'undefined_q', '1 +', 'f = v => v + x\nf(2)', 'max(x, 2)', 'len = 3\nlen',
+BASE = ['{1: x, 2.0: y}', 'q = {1: 1}\nq[2] = x\nq', 'y.push(1)\ny.push(2)\ny.push(3)\ny.push(4)\nlen(y)', 'fz9(1)', 'fz9(x) if x != "str" else 0', 'x + 1', 'len(y)', 'y.push(1)\ny', 'z = x\nz', 'undefined_q', '1 +', 'f = v => v + x\nf(2)', 'max(x, 2)', 'len = 3\nlen',
         'd["k"]', '[x, [x]]', '{"a": y}', 'x / 0', 'for', 'y[5]', 'x if x > 2 else y', 'sorted(y)', 'g(1)', '', '# c', 'x;;y',
         'y | map(v => v * 2) | sum', 'x = x + 1\nx', 'len([1, 2, 3])', 'str(x) + "!"', 'd["n"] = y\nd', 'min(y)', '$', 'del d["k"]\nd',
         'y += [x]\ny', 'h = [1]\nh.push(h)\nlen(h)', '[]', '{}', 'x if False else []', 'get(d, "zz", [])', '[[], {}]', 'q = []\nq',
@@ -169,10 +170,23 @@ def mutate_result(v):
         v['host'] = D(1)
 
 
+SETTINGS = {'CAST_DICT_KEYS_TO_STRINGS': [True, False], 'MAX_ARRAY_SIZE': [10000, 3], 'REGEX_TIMEOUT': [0.05, 0.5]}
+
+
 def run_sequence(ops, case):
     """-> (failures, info)"""
+    import smartquery.functions as Fn
+    saved = {k: getattr(Fn, k) for k in SETTINGS if hasattr(Fn, k)}
+    try:
+        return _run_sequence(ops, case)
+    finally:
+        for k, v in saved.items():
+            setattr(Fn, k, v)
+
+
+def _run_sequence(ops, case):
     W = worlds()
-    pool_sources = sorted({op[1] for op in ops})
+    pool_sources = sorted({op[1] for op in ops if op[0] != 'setting'})
     import weakref
     caches = {'none': None, 'dict': {}, 'lru2': LRU(2), 'evicting': Evicting(), 'prewarmed': {}, 'weak': weakref.WeakValueDictionary()}
     for src in pool_sources:
@@ -190,8 +204,13 @@ def run_sequence(ops, case):
     def bad(sig, msg):
         fails.append(Failure(sig, msg[:1400], case))
 
+    import smartquery.functions as Fn
     for step, op in enumerate(ops):
         kind, src = op[0], op[1]
+        if kind == 'setting':
+            # the host changes a module-level setting of the library between calls (it applies to every parser alike)
+            setattr(Fn, op[1], op[2])
+            continue
         results = {}
         for wname in caches:
             p = W[wname]
@@ -275,6 +294,10 @@ def cases(draw):
     for _ in range(2 + n(29)):
         src = pick(pool)
         src = pick(WS) + src + pick(WS)
+        if n(12) == 0:
+            import smartquery.functions as Fn
+            name = pick(sorted(k for k in SETTINGS if hasattr(Fn, k)) or ['CAST_DICT_KEYS_TO_STRINGS'])
+            ops.append(('setting', name, pick(SETTINGS[name])))
         if n(4) == 0:
             ops.append(('parse', src))
         else:
@@ -285,6 +308,8 @@ def cases(draw):
 def nontrivial(ops):
     seen = {}
     for op in ops:
+        if op[0] == 'setting':
+            continue
         key = op[1].strip()
         ctx = op[2:] if op[0] == 'eval' else ('parse',)
         if key in seen and (ctx not in seen[key][0] or op[1] not in seen[key][1]):
